@@ -79,6 +79,40 @@ TIES = {
                           "FQ.addValue (exact int64 comparison)", ["tie"]),
     "PathToStrings": ("path/path.go ToStrings (body and element loop) = PV.toStrings (fresh slice in the deprecated-element branch)",
                       ["loopElems_eq", "tie", "tie_nil"]),
+    # ---- round 4 (bGEN3): further regions, docs/GEN_TIE.md §9 (go/vtrans/regions3.go)
+    "MatchTrie": ("match/match.go (*Match).AddQuery + remove closure, (*branch).addQuery, removeQuery (+ deferred empty), "
+                  "(*Match).Update, UpdateOnce, (*branch).update client loop = one unfolding of Match.addQuery, Match.removeQuery, "
+                  "Match.updateClients (write lock / read lock; child pruned iff the recursion reports it empty)",
+                  ["tie_locks", "chain_eq", "tie_add_leaf", "tie_add_new", "tie_add_found", "tie_remove_leaf", "tie_remove_step",
+                   "tie_remove_absent", "tie_remove_deferred", "tie_update_client", "tie_branch_update",
+                   "addQueryL_eq", "removeQueryL_eq", "tie_add_step", "tie_remove_general"]),
+    "ClientBase": ("client/client.go (*BaseClient).Subscribe (installation), Close, Impl, Poll, one iteration of run = the S steps "
+                   "install, handled, check, runErr and the K step Cfg.doBcClose of the client LTS",
+                   ["tie_install", "tie_connFail", "tie_iteration", "tie_close", "tie_impl", "poll_shape"]),
+    "ManagerGNMIUpdate": ("manager/manager.go (*Manager).handleGNMIUpdate, NewManager = MgrOpt.target followed by the guarded call "
+                          "site MgrOpt.site true (nil response, four arms, nil callbacks); nil ConnectionManager refused",
+                          ["tie", "calls_only_configured", "tie_new"]),
+    "CtreeAdd": ("ctree/tree.go (*Tree).Add, terminalAdd, intermediateAdd (+ deferred closure), slowAdd, Get: lock balance of the "
+                 "read->write upgrade (every return path releases the read lock exactly once) and the case analysis of Trie.add / "
+                 "Trie.get at the node", ["balanced", "tie_deferred", "tie_add", "tie_terminal", "tie_intermediate",
+                                          "refuse_is_none", "tie_slow", "tie_get"]),
+    "ShapesManager": ("manager/manager.go (*Manager).Add, Remove, Reconnect, subscribe: map written only under m.mu; Add's four "
+                      "refusals then registration + retryMonitor; Remove cancels, waits for finished, deletes; Reconnect under t.mu "
+                      "iff set; handleUpdates only after stream opened and request sent (shape the manager LTS assumes)",
+                      ["tie_add", "tie_remove", "tie_reconnect", "tie_subscribe", "tie_customize"]),
+    "ShapesCacheMeta": ("cache/cache.go (*Target).Sync, Connect, updateMeta: sync=true; connected=true then delete connectError; "
+                        "latestTimestamp read under tsmu and written before UpdateReset", ["tie_cache_meta"]),
+    "ShapesSubscribeLoops": ("subscribe/subscribe.go head of (*Server).Subscribe (NewRPCACL failure = Unauthenticated, before any "
+                             "Recv), one poll of processPollingSubscription, one item of sendStreamingResults (timer armed only "
+                             "around the sync-marker Send; target delete ends the stream unless target is *)",
+                             ["tie_head", "tie_poll", "tie_stream_timer", "tie_stream_sync", "tie_stream_delete"]),
+    "LatencyL": ("latency/latency.go (*Latency).Compute, (*Latency).update + deferred closure = Latency.L.computeLat, L.closeSlot, "
+                 "L.flush (scaled sum, min 0 = unset, start set once; slot added to every window before the reset; deferred "
+                 "window update registered before the early return)",
+                 ["tie_compute", "tie_closeSlot", "deferred_always", "tie_flush"]),
+    "PathComplete": ("path/path.go CompletePath = PV.completePath (origin in both: error; origin in path with prefix elements: error)",
+                     ["tie"]),
+    "ShapesCoalesceClose": ("coalesce/coalesce.go (*Queue).Close: closed at most once, under the lock", ["tie_coalesce_close"]),
 }
 
 # A property lists an obligation module only when the truth of its theorems hinges on the decision logic the
@@ -89,19 +123,21 @@ USES = {
     "C02": ["CacheGnmiUpdateLeaf", "CacheGnmiUpdateVerdict", "CacheGnmiRemoveOlder", "CacheTimestamp", "CtreeEntry"],
     "C03": ["CacheGnmiUpdateDispatch", "CacheGnmiUpdateLeaf", "CacheReset"],
     "C04": ["SubscribeReject", "SubscribeHandler", "SubscribeIsTargetDelete", "SubscribeWalk", "SubscribeRegister"],
-    "C05": ["SubscribeReject", "SubscribeHandler", "SubscribeWalk", "SubscribeMakeResponse"],
-    "C06": ["SubscribeRegister", "SubscribeUpdate"],
-    "C07": ["SubscribeSend", "SubscribeReject"],
-    "C08": ["SubscribeSend", "Coalesce", "SubscribeMakeResponse"],
-    "C09": ["CtreeEntry"],
-    "C11": ["Coalesce"],
-    "C13": ["ManagerHandleUpdates", "ManagerMonitor"],
-    "C14": ["MetadataResetEntry", "MetadataResetEntryMd", "CacheReset", "SubscribeWalk"],
-    "C15": ["CacheGnmiUpdateLeaf", "CacheGnmiUpdateDispatch", "Latency", "CacheReset", "CacheTimestamp"],
-    "C16": ["Connection", "ConnectionConnect", "ManagerMonitor"],
+    "C05": ["SubscribeReject", "SubscribeHandler", "SubscribeWalk", "SubscribeMakeResponse", "ShapesSubscribeLoops"],
+    "C06": ["SubscribeRegister", "SubscribeUpdate", "MatchTrie"],
+    "C07": ["SubscribeSend", "SubscribeReject", "ShapesSubscribeLoops"],
+    "C08": ["SubscribeSend", "Coalesce", "SubscribeMakeResponse", "ShapesSubscribeLoops"],
+    "C09": ["CtreeEntry", "CtreeAdd"],
+    "C10": ["CtreeAdd"],
+    "C11": ["Coalesce", "ShapesCoalesceClose"],
+    "C12": ["ManagerGNMIUpdate"],
+    "C13": ["ManagerHandleUpdates", "ManagerMonitor", "ManagerGNMIUpdate", "ShapesManager"],
+    "C14": ["MetadataResetEntry", "MetadataResetEntryMd", "CacheReset", "SubscribeWalk", "ShapesCacheMeta"],
+    "C15": ["CacheGnmiUpdateLeaf", "CacheGnmiUpdateDispatch", "Latency", "CacheReset", "CacheTimestamp", "LatencyL"],
+    "C16": ["Connection", "ConnectionConnect", "ManagerMonitor", "ShapesManager"],
     "C17": ["TargetCheckRevision", "TargetHandleDiffs"],
-    "C18": ["ClientReconnectLoop", "ClientClose"],
-    "C19": ["PathToStrings"],
+    "C18": ["ClientReconnectLoop", "ClientClose", "ClientBase"],
+    "C19": ["PathToStrings", "PathComplete"],
     "C20": ["FakeQueueUpdateTimestamp", "FakeQueueAddValue"],
 }
 
